@@ -491,13 +491,14 @@ public:
             std::memset(&recent_ins, 0, sizeof(MIDIchannel::NoteInfo::Phys));
         }
 
-        OpnChannel(const OpnChannel &oth): koff_time_until_neglible_us(oth.koff_time_until_neglible_us), users(oth.users)
+        OpnChannel(const OpnChannel &oth): koff_time_until_neglible_us(oth.koff_time_until_neglible_us), recent_ins(oth.recent_ins), users(oth.users)
         {
         }
 
         OpnChannel &operator=(const OpnChannel &oth)
         {
             koff_time_until_neglible_us = oth.koff_time_until_neglible_us;
+            recent_ins = oth.recent_ins;
             users = oth.users;
             return *this;
         }
